@@ -202,10 +202,17 @@ def selective_flip(ctx, probs, reps):
                 d = P["fun"](t, y)
                 d[flip] *= -1
                 return d
-            yr = _ref(modified, y0, [0.0, T])[-1]
+            try:
+                yr = _ref(modified, y0, [0.0, T])[-1]
+            except AssertionError:
+                ctx.skip("modified (partially flipped) field blows up within the span: reference not available")
+                continue
+            if not np.all(np.isfinite(yr)) or np.abs(yr).max() > 1e3:
+                ctx.skip("modified (partially flipped) field grows beyond 1e3 within the span")
+                continue
             e = np.abs(np.asarray(sol.states)[-1] - yr).max()
             ctx.case("selective_flip", [y0.tolist(), T, flip, method], nontrivial=True)
-            ctx.check(e <= STATE_TOL, "E:selective flip integrates exactly the documented modified field",
+            ctx.check(e <= STATE_TOL * max(1.0, np.abs(yr).max()), "E:selective flip integrates exactly the documented modified field",
                       {"y0": y0, "T": T, "flip": flip, "method": method, "err": e})
             ctx.check(np.asarray(sol.times)[-1] == -T, "E:selective flip times signed", {"t_end": np.asarray(sol.times)[-1]})
 
